@@ -694,6 +694,18 @@ def _len_like(fn, op, depth=6):
     l = p[0]
     ds = fn.defs.get(l, [])
     if not ds:
+        # the accumulator parameter of a closure handed to Iterator::fold / try_fold with a small constant as initial value:
+        # `iter.try_fold(0, |len, x| .. len + x.len() ..)` accumulates exactly like `for x in iter { len += x.len() }`
+        if len(p) == 1 and fn.kind == "Closure" and l == 2 and fn.parent:
+            par = fn.prog.fns.get(fn.crate + "::" + fn.parent)
+            if par is not None:
+                for c in par.calls:
+                    if re.search(r"iter::traits::iterator::Iterator::(fold|try_fold)$", c.path or "") and len(c.args) == 3:
+                        cd = par.single_def(op_base(c.args[2])) if op_base(c.args[2]) is not None else None
+                        if cd and cd[1] != "term" and cd[2]["k"] == "agg" and cd[2].get("def") == fn.path:
+                            iv = par.int_of(c.args[1])
+                            if iv is not None and 0 <= iv < 2**32:
+                                return True
         return False
     for (b, i, rv) in ds:
         if i == "term":
@@ -814,6 +826,36 @@ def _cmp_facts(fn):
                 out.append((sb, tt, "Ge", v, lo))
             if hi is not None:
                 out.append((sb, tt, "Le" if incl else "Lt", v, hi))
+    # facts carried by a materialised boolean:  `let ok = matches!(x, 1..=127);  if !ok { return }`  /  `let ok = a < b && c;  if ok {..}`.
+    # On the edge where such a local is known to be true (false), every comparison fact that dominates the one assignment that can
+    # have produced that value holds as well.
+    from ..flow import truth_implies
+    base = list(out)
+    for b in fn.reachable:
+        t = fn.term(b)
+        if not t or t["k"] != "switch":
+            continue
+        l = op_local(t["d"])
+        if l is None or fn.local_ty(l)["k"] != "bool":
+            continue
+        zero = [x for v, x in t["ts"] if v == 0]
+        if not zero:
+            continue
+        for tb, val in ((t["o"], True), (zero[0], False)):
+            if tb == (zero[0] if val else t["o"]):
+                continue
+            try:
+                facts = truth_implies(fn, l, val)
+            except Exception:
+                facts = None
+            if not facts:
+                continue
+            for f_ in facts:
+                if f_[0] != "at":
+                    continue
+                for (sb2, tb2, cop, a2, b2) in base:
+                    if (sb2, tb2) != (b, tb) and edge_dominates(fn, sb2, tb2, f_[1]):
+                        out.append((b, tb, cop, a2, b2))
     fn._cmp_facts = out
     return out
 
